@@ -11,7 +11,14 @@ HOSTILE = ("isolated", "bionly", "bow", "bichain", "multidistrict", "onedistrict
 # "deepcollider" is requested explicitly by the separation workloads
 
 
-def names(n, rng=None, unsorted=False):
+ALLOW_PREFIXED = True  # transport / counterfactual-transport workloads switch this off: there a name T_x IS a selection node
+
+
+def names(n, rng=None, unsorted=False, prefixed=False):
+    if prefixed:
+        # names that collide with prefixes the library introduces itself (transport nodes T_..., latents u_...)
+        pool = ["T_1", "u_0", "V2", "T_V3", "V1", "u_1", "V0", "T_cells", "V4"]
+        return pool[:n]
     if unsorted:
         pool = ["V10", "V2", "V1", "V11", "V3", "V20", "V0", "V4", "V12"]
         return pool[:n]
@@ -21,8 +28,8 @@ def names(n, rng=None, unsorted=False):
 def random_admg(rng, n, hostile=None, p_di=None, p_bi=None):
     """Random ADMG description; ``hostile`` forces one of the hostile classes."""
     if hostile is None:
-        hostile = rng.choice(HOSTILE)
-    nm = names(n, rng, unsorted=(hostile == "names_unsorted"))
+        hostile = rng.choice(HOSTILE + (("names_prefixed",) if ALLOW_PREFIXED else ()))
+    nm = names(n, rng, unsorted=(hostile == "names_unsorted"), prefixed=(hostile == "names_prefixed" and ALLOW_PREFIXED))
     order = nm[:]
     rng.shuffle(order)  # topological order
     p_di = rng.choice(DENSITIES) if p_di is None else p_di
